@@ -45,9 +45,26 @@ func c09Snapshot(n *sim.Node) c09Snap {
 }
 
 // c09Payload builds a well-formed payload of the given type for swap id.
-func c09Payload(rng *mrand.Rand, typ int, id *swap.SwapId, scid, chain string, w *sim.World, payee string) []byte {
+func c09Payload(rng *mrand.Rand, typ int, id *swap.SwapId, scid, chain string, w *sim.World, payee string, malformed bool) []byte {
 	k, _ := btcec.NewPrivateKey()
 	pub := hx(k.PubKey().SerializeCompressed())
+	if malformed {
+		// decodes into the message of its type but fails the message's own validation
+		switch typ {
+		case ref.MsgSwapInAgreement:
+			return mustJSON(&swap.SwapInAgreementMessage{ProtocolVersion: 7, SwapId: id, Pubkey: pick(rng, "02", "zz", pub[:64]), Premium: 10})
+		case ref.MsgSwapOutAgreement:
+			return mustJSON(&swap.SwapOutAgreementMessage{ProtocolVersion: 7, SwapId: id, Pubkey: pick(rng, "02", "zz", pub[:64]), Payreq: "", Premium: 10})
+		case ref.MsgOpeningTxBroadcast:
+			return mustJSON(&swap.OpeningTxBroadcastedMessage{SwapId: id, Payreq: "", TxId: pick(rng, "zz", "", "00"), ScriptOut: 0})
+		case ref.MsgCoopClose:
+			return mustJSON(&swap.CoopCloseMessage{SwapId: id, Message: "coop from adversary", Privkey: pick(rng, "zz", "01", "")})
+		case ref.MsgSwapInRequest:
+			return mustJSON(&swap.SwapInRequestMessage{ProtocolVersion: 7, SwapId: id, Scid: scid, Amount: 300_000, Pubkey: "02"})
+		case ref.MsgSwapOutRequest:
+			return mustJSON(&swap.SwapOutRequestMessage{ProtocolVersion: 7, SwapId: id, Scid: scid, Amount: 300_000, Pubkey: "02"})
+		}
+	}
 	asset, network := "", ""
 	if chain == "lbtc" {
 		asset = hx(sim.PolicyAsset())
@@ -85,6 +102,10 @@ type c09Plan struct {
 	third      bool   // sender is a third party
 	idKind     string // live | finished | unknown
 	scidKind   string // same | other | malformed
+	malformed  bool   // the payload fails the message's own field validation
+	// continueAfter: after the delivery the history is continued to its end and compared with the same world
+	// without the delivery
+	continueAfter bool
 }
 
 func runC09(r *Run, seed int64, pl c09Plan) {
@@ -176,7 +197,7 @@ func runC09(r *Run, seed int64, pl c09Plan) {
 	if pl.third {
 		sender = mal.ID
 	}
-	payload := c09Payload(rng, pl.msgType, id, scid, pl.chain, w, sender)
+	payload := c09Payload(rng, pl.msgType, id, scid, pl.chain, w, sender, pl.malformed)
 	before := c09Snapshot(a)
 	mark := len(w.Events())
 	errText, panicText := w.DeliverNow(sender, "alice", fmt.Sprintf("%x", pl.msgType), payload)
@@ -302,6 +323,113 @@ func runC09(r *Run, seed int64, pl c09Plan) {
 	if seed%211 == 0 {
 		r.Sample(map[string]any{"class": class, "handler_error": errText, "replies": len(replies)})
 	}
+	// ---- progress is untouched as well: a delivery that must not count (third party, finished / unknown id,
+	// unacceptable in the state) leaves the live swap able to go on exactly as in the same world without it
+	// (only for swaps the node already knows at that moment; a counterparty that itself sends a conflicting request
+	// with the live id is answered with a cancel carrying that id, which its own node then obeys — not judged)
+	if _, liveKnown := before.recs[liveID.String()]; !allowed && pl.continueAfter && liveKnown && !(isReq && !pl.third) {
+		finish := func(w *sim.World, a *sim.Node, chain *sim.Chain, window bool, live string) string {
+			if window {
+				a.Recover()
+			}
+			w.Run()
+			for i := 0; i < 6; i++ {
+				chain.Mine(1)
+				w.Run()
+			}
+			st := "absent"
+			if rec := a.StoredSwap(live); rec != nil {
+				st = string(rec.Current)
+			}
+			return st
+		}
+		got := finish(w, a, chain, pl.window, liveID.String())
+		tw := c09Twin(seed, pl)
+		if tw == nil {
+			return
+		}
+		defer tw.w.Close()
+		want := finish(tw.w, tw.a, tw.chain, pl.window, tw.live)
+		r.Count("continuations_compared", 1)
+		r.Seen(fmt.Sprintf("continuation/%s/%s/final=%s/undisturbed=%s", c09TypeName[pl.msgType], who, got, want))
+		if got != want {
+			r.Violate("progress-untouched", fmt.Sprintf("C09|live-swap-ends-differently-after-ignored-message|%s|%s|id=%s|%s", c09TypeName[pl.msgType], who, pl.idKind, recov),
+				det(fmt.Sprintf("the live swap (state %s at the delivery) ends in %s; in the same world without the delivery it ends in %s", stateOfLive(before, liveID.String()), got, want)), traceOf(w))
+		}
+	}
+}
+
+func stateOfLive(s c09Snap, id string) string {
+	if a, ok := s.active[id]; ok {
+		return string(a.Current)
+	}
+	return "?"
+}
+
+type c09TwinWorld struct {
+	w     *sim.World
+	a     *sim.Node
+	chain *sim.Chain
+	live  string
+}
+
+// c09Twin rebuilds the world of runC09 for the same seed and plan up to the point of the adversarial delivery,
+// without delivering anything.
+func c09Twin(seed int64, pl c09Plan) *c09TwinWorld {
+	w := sim.NewWorld(seed)
+	a := w.AddNode("alice", sim.DefaultNodeConfig())
+	b := w.AddNode("bob", sim.DefaultNodeConfig())
+	mal := w.AddPeer("mallory")
+	w.LN.OpenChannel("100x1x0", a.ID, b.ID, 5_000_000_000, 5_000_000_000)
+	w.LN.OpenChannel("200x1x0", a.ID, b.ID, 5_000_000_000, 5_000_000_000)
+	w.LN.OpenChannel("300x1x0", a.ID, mal.ID, 5_000_000_000, 5_000_000_000)
+	fail := func() *c09TwinWorld { w.Close(); return nil }
+	if a.Start() != nil || b.Start() != nil {
+		return fail()
+	}
+	fsm, err, _ := a.SwapOut(b.ID, "btc", "200x1x0", 250_000, 100000)
+	if err != nil || fsm == nil {
+		return fail()
+	}
+	w.Run()
+	for i := 0; i < 4; i++ {
+		w.BTC.Mine(1)
+		w.Run()
+	}
+	ini, otherID := a, b.ID
+	if !pl.aliceInit {
+		ini, otherID = b, a.ID
+	}
+	var sm *swap.SwapStateMachine
+	if pl.typ == "out" {
+		sm, err, _ = ini.SwapOut(otherID, pl.chain, "100x1x0", 400_000, 100000)
+	} else {
+		sm, err, _ = ini.SwapIn(otherID, pl.chain, "100x1x0", 400_000, 100000)
+	}
+	if err != nil || sm == nil {
+		return fail()
+	}
+	chain := w.BTC
+	if pl.chain == "lbtc" {
+		chain = w.LBTC
+	}
+	for i := 0; i < pl.steps; i++ {
+		if !w.Step() {
+			break
+		}
+	}
+	for i := 0; i < pl.blocks; i++ {
+		chain.Mine(1)
+		for j := 0; j < 2; j++ {
+			w.Step()
+		}
+	}
+	if pl.window {
+		if a.Restart(sim.StartOpts{NoRecover: true}) != nil {
+			return fail()
+		}
+	}
+	return &c09TwinWorld{w: w, a: a, chain: chain, live: sm.SwapId.String()}
 }
 
 func TestC09(t *testing.T) {
@@ -321,6 +449,7 @@ func TestC09(t *testing.T) {
 			third:   rng.Intn(2) == 0,
 			idKind:  pick(rng, "live", "live", "live", "finished", "unknown"),
 			scidKind: pick(rng, "same", "same", "other", "malformed"),
+			malformed: rng.Intn(4) == 0, continueAfter: rng.Intn(3) == 0,
 		}
 		plans = append(plans, pl)
 	}
